@@ -1,7 +1,7 @@
 CONSTANTS
   Fresh <- Fresh4
   PreScopes = {"_SB_"}
-  MaxProd = 4  MaxTables = 1  MaxDepth = 2
+  MaxProd = 3  MaxTables = 2  MaxDepth = 2
   OpenKinds = {"Device"}  DeclKindsOn = {"Name", "OpRegion"}
   Forms = {}
   FieldKinds = {}
